@@ -69,6 +69,20 @@ type c13AM struct {
 
 func c13Big(a netip.Addr) string { return verifh.AddrN(a) }
 
+// c13Prefered derives a preferred lifetime from the message deterministically: forever while valid is
+// finite, finite while valid is forever, equal, or smaller.
+func c13Prefered(am c13AM) uint32 {
+	switch (uint32(am.Plen) + am.Flags + am.Valid%7 + uint32(len(am.Addr))) % 4 {
+	case 0:
+		return math.MaxUint32
+	case 1:
+		return 1800
+	case 2:
+		return am.Valid
+	}
+	return am.Valid / 2
+}
+
 func c13IPCoq(ip IP) string {
 	a := ip.Address.Addr()
 	return verifh.App("mkIP", verifh.B(a.Is4()), c13Big(a), verifh.N(uint64(ip.Address.Bits())),
@@ -88,7 +102,9 @@ func c13Addresses(out *verifh.Out, id string, ams []c13AM, f c13Fail, withMsgs b
 		a := netip.MustParseAddr(am.Addr)
 		msgs = append(msgs, &rtnetlink.AddressMessage{Family: unix.AF_INET6, PrefixLength: am.Plen, Index: index,
 			Attributes: &rtnetlink.AddressAttributes{Address: net.IP(a.AsSlice()), Flags: am.Flags,
-				CacheInfo: rtnetlink.CacheInfo{Valid: am.Valid, Prefered: am.Valid}}})
+				// preferred lifetime: independent of the valid lifetime (forever / finite in all four combinations);
+				// only `valid forever` marks an address as static
+				CacheInfo: rtnetlink.CacheInfo{Valid: am.Valid, Prefered: c13Prefered(am)}}})
 		cm = append(cm, verifh.App("mkAM", c13Big(a), verifh.N(uint64(am.Plen)), verifh.N(uint64(am.Flags)), verifh.N(uint64(am.Valid))))
 	}
 	calls, badReq := 0, ""
@@ -316,6 +332,42 @@ func TestVerifC13Addresser(t *testing.T) {
 			Input: map[string]any{"failure": f.name}, Observed: map[string]any{"requests": calls, "error": err != nil, "routes": len(rs)}}
 		if calls > 0 && err == nil {
 			c.ImplViolation = fmt.Sprintf("LoopbackRoutes made %d route requests, all failed (%s), and returned %d routes without an error", calls, f.name, len(rs))
+		}
+		out.Emit(c)
+	}
+
+	// ---- (5) the real rtnetlink transport (rtnlExecute), when this host lets an unprivileged socket dump
+	// addresses: the loopback interface has ::1/128; an interface index that does not exist is an ERROR,
+	// never an empty list ("a failure to list addresses fails RA generation": an interface that vanished
+	// or was re-created under a new index must not silently advertise nothing)
+	if out.Wants("c13sys-real-netlink") {
+		real := NewAddresser()
+		c := verifh.Case{ID: "c13sys-real-netlink", Tags: []string{"stream:real-netlink"}, Input: map[string]any{"kind": "real-netlink"}}
+		lo, lerr := net.InterfaceByName("lo")
+		if lerr != nil {
+			c.Tags = append(c.Tags, "real-netlink:no-loopback")
+		} else if ips, err := real.AddressesByIndex(lo.Index); err != nil {
+			c.Tags = append(c.Tags, "real-netlink:unavailable")
+			c.Observed = fmt.Sprint(err)
+		} else {
+			c.Tags = append(c.Tags, "real-netlink:available")
+			for _, ip := range ips {
+				if ip.Address.Addr().Is4() || ip.Address.Addr().Is4In6() {
+					c.ImplViolation = fmt.Sprintf("AddressesByIndex(lo) returned a non-IPv6 address %s", ip.Address)
+				}
+			}
+			unused := 0
+			if ifis, err := net.Interfaces(); err == nil {
+				for _, ifi := range ifis {
+					unused = max(unused, ifi.Index)
+				}
+				unused += 100000
+			}
+			ips2, err2 := real.AddressesByIndex(unused)
+			c.Observed = map[string]any{"lo": len(ips), "unused_index": unused, "unused_error": fmt.Sprint(err2), "unused_addrs": len(ips2)}
+			if err2 == nil && c.ImplViolation == "" {
+				c.ImplViolation = fmt.Sprintf("AddressesByIndex(%d) for an interface index that does not exist returned %d addresses and no error", unused, len(ips2))
+			}
 		}
 		out.Emit(c)
 	}
